@@ -160,7 +160,10 @@ ParCSRMatrix* ParCSRMatrix::add(ParCSRMatrix* B)
         for (int i = 0; i < C->off_proc_num_cols; i++)
         {
             if (new_col[i])
+            {
+                C->off_proc_column_map[ctr] = C->off_proc_column_map[i];
                 new_col[i] = ctr++;
+            }
             else 
                 new_col[i] = -1;
         }
@@ -288,7 +291,10 @@ ParCSRMatrix* ParCSRMatrix::subtract(ParCSRMatrix* B)
         for (int i = 0; i < C->off_proc_num_cols; i++)
         {
             if (new_col[i])
+            {
+                C->off_proc_column_map[ctr] = C->off_proc_column_map[i];
                 new_col[i] = ctr++;
+            }
             else 
                 new_col[i] = -1;
         }
